@@ -500,9 +500,14 @@ def pose_case(rng, viol, counts):
         from .. import fragments
         from .c16 import titratable_anchor
         recs = sources.random_small_structure(rng, 120, 700)
+        for _try in range(5):
+            # (tests/pdb/1HPX-warn.pdb repeats an atom record: an ion bonded to two coinciding atoms is no test of the rule)
+            if sources.identities_unique(recs):
+                break
+            recs = sources.random_small_structure(rng, 120, 700)
         frag, _e, _d = fragments.place_near(recs, rng.choice(("ion:ZN", "ion:MG", "ion:CU", "ion:FE")), rng, anchor=titratable_anchor(recs, rng),
                                             dist_A=rng.choice((1.85, 1.95, 2.05, 2.3)), min_clear_A=1.7)
-        if frag:
+        if frag and sources.identities_unique(recs):
             recs = recs + frag
     rot = rng.choice(pdbio.ROTATIONS)
     tr = tuple(rng.choice((0, 1, -1, BOX, -BOX * 7, 123456, -700000)) for _ in range(3))
